@@ -546,6 +546,8 @@ class Concretiser:
                 out += bytes([seg.byte]) * self.ev(seg.n)
             elif isinstance(seg, sb.SymByte):
                 out.append(self.ev(seg.bv))
+            elif isinstance(seg, sb.CutSeg):
+                out += seg.data[seg.lo:self.ev(seg.hi)]
             elif isinstance(seg, sb.Atom):
                 out += self.atom(seg)
             elif isinstance(seg, sb.Junk):
